@@ -401,6 +401,7 @@ class Triage(object):
                                           'file': os.path.basename(path), 'origin': origin})
                 continue
             groups.setdefault((target, sig), []).append((path, origin))
+        to_judge = []
         for (target, sig), files in groups.items():
             files.sort(key=lambda f: (os.path.getsize(f[0]), f[0]))
             rec = self.signatures.setdefault(sig, {'count': 0, 'known': None, 'targets': [], 'origins': []})
@@ -423,7 +424,11 @@ class Triage(object):
                 self.inconclusive.append({'what': 'leak allocated by the fuzz target itself (harness defect, please report): ' + sig,
                                           'target': target, 'file': os.path.basename(files[0][0])})
                 continue
-            self.judge(target, sig, files[0][0], rec)
+            to_judge.append((target, sig, files[0][0], rec))
+        # unknown signatures are judged in parallel (each: one minimization of at most 20 s and four replays)
+        list(self.pool.map(lambda a: self.judge(*a), to_judge[:24]))
+        for target, sig, path, rec in to_judge[24:]:
+            self.inconclusive.append({'what': 'more than 24 unknown signatures in one batch; not judged: ' + sig, 'target': target, 'file': os.path.basename(path)})
 
     def judge(self, target, sig, path, rec):
         """unknown signature: minimize, replay three times, record a violation or a flaky item"""
@@ -432,8 +437,8 @@ class Triage(object):
             mind = os.path.join(self.run_dir, 'min')
             os.makedirs(mind, exist_ok=True)
             outp = os.path.join(mind, 'min-' + os.path.basename(path))
-            run([os.path.join(BIN, target), '-minimize_crash=1', '-max_total_time=30', '-timeout=25', '-rss_limit_mb=2048',
-                 '-exact_artifact_path=' + outp, path], target_env({'TMPDIR': self.run_dir}), 120)
+            run([os.path.join(BIN, target), '-minimize_crash=1', '-max_total_time=20', '-timeout=10', '-rss_limit_mb=2048',
+                 '-exact_artifact_path=' + outp, path], target_env({'TMPDIR': self.run_dir}), 50)
             if os.path.exists(outp) and os.path.getsize(outp) <= os.path.getsize(path):
                 s2, _, _ = replay(target, outp)
                 if s2 == sig:
@@ -612,7 +617,8 @@ def campaign(tier, budget, run_dir, tmp, known, pool, tri, t_start):
             elif kind == 'timeout' and g.target in HANG_IS_FAILURE:
                 items.append((g.target, p, g.start + ':timeout'))
             elif kind in ('timeout', 'oom', 'slow'):
-                tri.inconclusive.append({'what': kind + ' artifact (not a verdict for this target)', 'target': g.target, 'file': f, 'origin': g.start})
+                tri.inconclusive.append({'what': kind + ' artifact (not a verdict for this target)', 'target': g.target, 'file': f, 'origin': g.start,
+                                         'input': mkseed.readable(g.target, open(p, 'rb').read(), 300)})
     hang_items = [it for it in items if it[2].endswith(':timeout')]
     tri.digest([it for it in items if not it[2].endswith(':timeout')])
     for t, p, origin in hang_items:
